@@ -56,7 +56,33 @@ BODIES = {
 LOOKALIKE_IDS = ["metrics", "healthy-1", "full-metrics", "static"]
 
 
+def header_shapes(app):
+    """every request header the server's own source reads (besides Authorization), sent with a tempting value and without a token:
+    nothing a client can put into a header stands in for the token"""
+    import inspect
+    import re
+    import sys
+    try:
+        src = inspect.getsource(sys.modules[type(app).__module__])
+    except Exception:
+        return []
+    names = set(re.findall(r"""request\.headers\.get\(\s*["']([^"']+)["']""", src)) | set(re.findall(r"""request\.headers\[\s*["']([^"']+)["']\s*\]""", src)) \
+        | set(re.findall(r"""["']([^"']+)["']\s+(?:not\s+)?in\s+request\.headers""", src))
+    for env in re.findall(r"""environ(?:\.get\(|\[)\s*["']HTTP_([A-Z0-9_]+)["']""", src):
+        names.add("-".join(p_.capitalize() for p_ in env.split("_")))
+    out = []
+    for nm in sorted(n_ for n_ in names if n_.lower() != "authorization"):
+        out.append(("header_the_server_reads:" + nm, {nm: "yes"}))
+        out.append(("header_the_server_reads:" + nm + "+wrong_token", {nm: "yes", "Authorization": "Bearer wrong"}))
+    return out
+
+
 def shapes(T):
+    if not isinstance(T, str):
+        # a token that is not a string (a number read from a YAML / JSON configuration): texts that merely PARSE to it are not it
+        t = str(T)
+        return [("absent", None), ("wrong", "Bearer wrong"), ("leading_zero", "Bearer 0" + t), ("plus_sign", "Bearer +" + t),
+                ("underscore", "Bearer " + t[0] + "_" + t[1:]), ("basic_wrong", "Basic " + t[::-1] + "9"), ("one_char", "Bearer " + t[:-1] + "x")]
     if T == "":
         # the configured token is the empty string (an unset environment variable handed through): still a configured token -
         # nothing that presents something else, or nothing at all, is served
@@ -153,7 +179,7 @@ def generate(spec):
     npos = len(ops2) + 1
     bursts = sorted(set([rng.randrange(npos) for _ in range(rng.choice([1, 2, 2, 3]))] + ([0] if rng.random() < 0.25 else []) + [npos - 1]))
     # the token is data: characters that mean something to a regular expression, a URL or a shell are characters like any other
-    token = rng.choice([TOKEN, TOKEN, "v2.prod.7f3a9c", "a+b(c)*d", "t0k/en?x=1", ""])
+    token = rng.choice([TOKEN, TOKEN, "v2.prod.7f3a9c", "a+b(c)*d", "t0k/en?x=1", "", 1234])
     broken = bool(adapter) and rng.random() < 0.12
     return {"property": PROPERTY, "config": {"adapter": adapter, "token": token, "state_dir_missing": broken,
                                              # the whole history is driven inside one pushed application context (a script or a fixture does that)
@@ -264,7 +290,7 @@ def concurrent_phase(w, st, o, res, log, with_intruders):
         out["auth"] = w.post("/%s/run-steps" % iid, {"settings": {}, "numberSteps": o["n"]}, tag="auth-conc")
 
     def intruder():
-        T = w.token
+        T = w.token if isinstance(w.token, str) else ""
         reqs = [("POST", "/start-instance", {"timeout": {"minutes": 5}}, None),
                 ("POST", "/%s/run-step" % iid, {"settings": SET9}, "Bearer wrong"),
                 ("POST", "/%s/stop-instance" % iid, None, None),
@@ -392,7 +418,7 @@ def _burst(w, st, res, log, case, bno):
             path = rule
             for a in args:
                 path = path.replace("<%s>" % a, iid if a == "instance_uuid" and iid else "x").replace("<path:%s>" % a, "x")
-            for sname, header in shapes(case["config"]["token"]):
+            for sname, header in shapes(case["config"]["token"]) + header_shapes(w.app):
                 if idc.startswith("looks_public") and sname not in ("absent", "wrong"):
                     continue
                 for bname, body in bodies:
@@ -401,7 +427,7 @@ def _burst(w, st, res, log, case, bno):
                         continue
                     if limit is not None and n >= limit:
                         return n
-                    hdr = {} if header is None else {"Authorization": header}
+                    hdr = {} if header is None else dict(header) if isinstance(header, dict) else {"Authorization": header}
                     r = w.request(method, path, body=body, auth=False, headers=hdr)
                     n += 1
                     res.sim_units += 1
